@@ -185,6 +185,16 @@ class C18(PairCheck):
         traces += [atr[i] for i in keep]
         metas += [dict(ame[i], source='scripted-peer') for i in keep]
         self.extra_coverage['scripted_peer_traces'] = len(keep)
+        # sessions secured with TLS (certificates with IP / DNS / node-ID names, matching or not): the session
+        # parameters reported then carry the authenticated identities
+        from harness.drivers import tcpcl_policy
+        rows = [r for r in tcpcl_policy.table('quick', seed) if r['A']['canTls'] and r['P']['canTls'] and r['hsOk']]
+        rnd2 = random.Random(seed * 11 + 3)
+        rows = rnd2.sample(rows, min(len(rows), 50 if tier != 'thorough' else 400))
+        ptr = [tcpcl_policy.run_case(r, seed=seed + i) for (i, r) in enumerate(rows)]
+        traces += ptr
+        metas += [{'source': 'scripted-peer', 'tls_policy_row': {k: r[k] for k in ('A', 'P', 'byName')}} for r in rows]
+        self.extra_coverage['tls_session_traces'] = len(ptr)
         # the agent object: connection_opened / connection_closed, get_connections, connect / shutdown returns
         from harness.checks import tcpcl_agent
         batch = tcpcl_agent.agent_batch(tier, seed)
